@@ -449,6 +449,61 @@ let fmtc_s maxd s =
   | Err e -> "err " ^ cerr_s e
   | Crash c -> "crash " ^ crash_name c
 
+(* ---------- PO loader (C10) ---------- *)
+(* Oracle answers travel in the request: quadruples  kind name data answer  where kind is
+   0 codecs.lookup  1 is_ascii_compatible  2 bytes.decode  3 int(ch)  4 ch.isdigit ;
+   answer is 'n' (None / False) or a string.  A question that is not in the table is recorded and
+   answered with a dummy; the result line then lists the missing questions. *)
+let po_table : (string, n list option) Hashtbl.t = Hashtbl.create 64
+let po_missing : string list ref = ref []
+let po_key kind name data = string_of_int kind ^ " " ^ out_str name ^ " " ^ out_str data
+let po_ask kind name data dummy =
+  let k = po_key kind name data in
+  match Hashtbl.find_opt po_table k with
+  | Some a -> a
+  | None -> (if not (List.mem k !po_missing) then po_missing := k :: !po_missing); dummy
+let po_load_table (a : string array) (from : int) =
+  Hashtbl.reset po_table; po_missing := [];
+  let i = ref from in
+  while !i + 3 < Array.length a + 0 && !i + 3 <= Array.length a - 1 do
+    let k = a.(!i) ^ " " ^ a.(!i + 1) ^ " " ^ a.(!i + 2) in
+    Hashtbl.replace po_table k (if a.(!i + 3) = "n" then None else Some (arg_str a.(!i + 3)));
+    i := !i + 4
+  done
+let po_codecs () = {
+  c_lookup = (fun name -> po_ask 0 name [] None <> None);
+  c_ascii_compatible = (fun name -> po_ask 1 name [] None <> None);
+  c_decode = (fun name b -> po_ask 2 name b (Some []));
+  c_udigit = (fun c -> match po_ask 3 [] [c] None with Some [v] -> Some v | _ -> None);
+  c_uisdigit = (fun c -> po_ask 4 [] [c] None <> None) }
+let po_finish (r : string) =
+  if !po_missing = [] then r else "miss " ^ String.concat " | " (List.rev !po_missing)
+let opt_s = function None -> "n" | Some s -> out_str s
+let b01 b = if b then "1" else "0"
+let entry_s (e : po_entry) =
+  String.concat ";" [
+    opt_s e.pe_msgctxt; out_str e.pe_msgid; opt_s e.pe_msgid_plural; opt_s e.pe_msgstr;
+    "pl=" ^ String.concat "/" (List.map (fun (k, v) -> ns k ^ ":" ^ out_str v) e.pe_plural);
+    b01 e.pe_obsolete; out_str e.pe_comment; out_str e.pe_tcomment;
+    "occ=" ^ String.concat "/" (List.map (fun (f, l) -> out_str f ^ ":" ^ out_str l) e.pe_occ);
+    "fl=" ^ String.concat "/" (List.map out_str e.pe_flags);
+    opt_s e.pe_prev_ctxt; opt_s e.pe_prev_id; opt_s e.pe_prev_plural ]
+let detail_s = function
+  | DNone -> "-" | DUnescapedQuote -> "unescaped-quote" | DInvalidContinuation -> "invalid-continuation"
+  | DUnknownKeyword k -> "unknown-keyword " ^ out_str k
+let pofile_s (f : pofile) =
+  "warned=" ^ b01 f.po_warned ^ " header=" ^ out_str f.po_header ^ " n=" ^ string_of_int (List.length f.po_entries)
+  ^ String.concat "" (List.map (fun e -> " | " ^ entry_s e) f.po_entries)
+let perr_s = function PSyntax (l, d) -> "err syntax " ^ ns l ^ " " ^ detail_s d
+let sym_s = function
+  | Ytc -> "tc" | Ygc -> "gc" | Yoc -> "oc" | Yfl -> "fl" | Ypc -> "pc" | Ypm -> "pm" | Ypp -> "pp"
+  | Yct -> "ct" | Ymi -> "mi" | Ymp -> "mp" | Yms -> "ms" | Ymx -> "mx" | Ymc -> "mc"
+let lexed_s = function
+  | LBlank -> "blank"
+  | LPrevObsolete -> "prev-obsolete"
+  | LLine (o, h, a) -> "line " ^ b01 o ^ " " ^ b01 h ^ " " ^
+    (match a with ASkip -> "skip" | AFail d -> "fail " ^ detail_s d | AProc (y, c) -> "proc " ^ sym_s y ^ " " ^ out_str c)
+
 (* ---------- dispatch ---------- *)
 let handle (op : string) (a : string array) : string =
   match op with
@@ -699,6 +754,23 @@ let handle (op : string) (a : string array) : string =
   | "ctokens" -> (* str : the directive regex, finditer-style *)
     let s = arg_str a.(0) in
     String.concat " " (List.map ctoken_s (fmtc_tokens (nat_of_int (List.length s)) s))
+  | "po_isspace" -> b01 (py_isspace (arg_n a.(0)))
+  | "po_unescape" -> (* str, then the oracle table; the codec is asked under the name s *)
+    po_load_table a 1;
+    po_finish (match unescape (fun b -> po_ask 2 [] b (Some [])) (arg_str a.(0)) with
+     | Ok (t, w) -> "ok " ^ out_str t ^ " " ^ b01 w
+     | Err EDecode -> "err decode"
+     | Crash c -> "crash " ^ crash_name c)
+  | "po_lex" -> lexed_s (lex_line (arg_bool a.(0)) (arg_str a.(1)))
+  | "po_open" -> String.concat " " (List.map out_str (codecs_open_text (arg_str a.(0))))
+  | "po_detect" -> po_load_table a 1;
+    po_finish (out_str (detect_encoding (fun name -> po_ask 0 name [] None <> None) (arg_str a.(0))))
+  | "po_load" -> po_load_table a 1;
+    po_finish (match load_po (po_codecs ()) (arg_str a.(0)) with
+     | Ok (l, broken) -> "ok enc=" ^ out_str l.l_encoding ^ " broken=" ^ b01 broken ^ " " ^ pofile_s l.l_file
+     | Err LDecode -> "err decode"
+     | Err (LSyntax0 e) -> perr_s e
+     | Crash c -> "crash " ^ crash_name c)
   | _ -> "unknown-op " ^ op
 
 let () =
